@@ -11,6 +11,10 @@ mod telemetry;
 mod transform;
 #[path = "../../.cache/repo_src/util.rs"]
 mod util;
+#[path = "../../.cache/repo_src/tracer_logger.rs"]
+mod tracer_logger;
+#[path = "../../.cache/repo_src/lib_wasm.rs"]
+mod lib_wasm;
 #[path = "../../.cache/repo_src/visitor/mod.rs"]
 mod visitor;
 
@@ -185,6 +189,16 @@ fn main() {
         }
     }
     let hooks = count_hooks(&code) as i64;
+    // wasm-side shaping through the cfg(dd_iast_verif) accessors: metrics of a fresh status for this file name, and defaults
+    let m = lib_wasm::verif_hooks::metrics(Some(transform::transform_status::TransformStatus::not_modified(&config)), &w.file_name);
+    let (m_file, m_status) = m.map(|m| (m.file, m.status)).unwrap_or_default();
+    let fb = lib_wasm::verif_hooks::fallback_config();
+    let df = lib_wasm::verif_hooks::config_from(None, None, None, None, None, None);
+    let defaults = format!("fallback: chain={} comments={} literals={} verbosity={:?} prefix_len={} lower={} methods={} | omitted: chain={} comments={} literals={} verbosity={:?} prefix_len={} lower={} methods={}",
+        fb.chain_source_map, fb.print_comments, fb.literals, fb.verbosity, fb.local_var_prefix.len(), fb.local_var_prefix.chars().all(|c| c.is_ascii_lowercase()), fb.csi_methods.methods.len(),
+        df.chain_source_map, df.print_comments, df.literals, df.verbosity, df.local_var_prefix.len(), df.local_var_prefix.chars().all(|c| c.is_ascii_lowercase()), df.csi_methods.methods.len());
+    println!("--- metrics.file={m_file:?} metrics.status={m_status:?}");
+    println!("--- {defaults}");
     println!("--- status={status} panicked={panicked} error={errored:?} hooks={hooks} metric={metric} debug={{{dbg_text}}}");
     println!("--- code:\n{code}");
     for l in &literals {
@@ -217,6 +231,9 @@ fn main() {
                     let (val, line, col) = (a[0].as_str().unwrap(), a[1].as_u64().unwrap() as usize, a[2].as_u64().unwrap() as usize);
                     literals.iter().any(|l| l.0 == val) && !literals.iter().any(|l| l.0 == val && l.1 == line && l.2 == col)
                 }
+                "metrics_file_ne" => m_file != v.as_str().unwrap(),
+                "metrics_status_ne" => m_status != v.as_str().unwrap(),
+                "defaults_ne" => defaults != v.as_str().unwrap(),
                 "trailer_count_ne" => content.matches("sourceMappingURL=").count() as i64 != v.as_i64().unwrap(),
                 "map_invalid" => (trailer_map(&content).is_none()) == v.as_bool().unwrap(),
                 "map_sources_ne" => {
